@@ -1,17 +1,18 @@
 #!/bin/bash
-# development aid: apply a seeded change to /repo, run the quick checks of the given properties, undo.
-# usage: lib/seedtest.sh <patch.diff> <prop> [prop...]
-patch=$1; shift
-cd /repo || exit 2
-if [ -n "$(git status --porcelain --untracked-files=no)" ]; then echo "repo not clean"; exit 2; fi
-git apply "$patch" || { echo "patch does not apply"; exit 2; }
-trap 'git -C /repo checkout -- . ; git -C /repo clean -fdq zygo 2>/dev/null' EXIT
-( cd zygo && export GOFLAGS=-mod=mod GOPROXY=off && go build ./ && go build -tags verif ./ && go test -vet=off -count=1 ./ 2>&1 | tail -1 )
+# development aid: apply a seeded change to a scratch copy of /repo and run the quick checks of the given
+# properties against it (VERIF_REPO), so that /repo itself and whatever else is building against it are
+# not disturbed. usage: lib/seedtest.sh <patch.diff> <prop> [prop...]
+patch=$(readlink -f "$1"); shift
+R=$(mktemp -d /tmp/seedrepo-XXXXXX)
+trap 'rm -rf "$R"' EXIT
+rsync -a --exclude .git /repo/ "$R"/
+( cd "$R" && patch -p1 -s < "$patch" ) || { echo "patch does not apply"; exit 2; }
+( cd "$R"/zygo && export GOFLAGS=-mod=mod GOPROXY=off && go build ./ && go build -tags verif ./ && go test -vet=off -count=1 ./ 2>&1 | tail -1 )
 cd /verif
 for p in "$@"; do
   s=$(date +%s)
-  out=$(VERIF_SEED=${VERIF_SEED:-1} ./check $p 2>&1); rc=$?
+  out=$(VERIF_REPO="$R" VERIF_SEED=${VERIF_SEED:-1} ./check $p 2>&1); rc=$?
   nv=$(echo "$out" | grep -c "^VIOLATION")
   echo "RESULT $p exit=$rc violations=$nv time=$(( $(date +%s)-s ))s"
-  echo "$out" | grep -v "^VIOLATION" | grep "case \|INCONCLUSIVE\|rejected" | head -6
+  echo "$out" | grep -v "^VIOLATION" | grep "case \|INCONCLUSIVE\|rejected" | head -5
 done
